@@ -261,6 +261,24 @@ CHECKS = {
         ref="§4 C11", engine="tlc"),
 }
 
+# stages added in rounds 12-13 (appended to the level text of the check)
+EXTRA = {
+    "C05": " Session.tla's derivation steps (DoDerive / CanDerive / DimsAfter: the session continues on what a selection, arithmetic, a "
+           "concatenation or a public transform / partition returned) are enumerated up to two steps; every operation on the derived object "
+           "is compared with the operation on a freshly built object holding the same labelled values, and the dimensions the model predicts "
+           "with the real ones. The array-level functions (interp_spec, npstats) are replayed on Fortran / strided / transposed / float32 buffers.",
+    "C06": " Dataset.tla shapes include several partitions per position (part first / last); every non-spectral dimension of the input "
+           "must be a dimension of the result; a blocks-on-threads stage compares every position of a dask-backed dataset computed by 8-16 "
+           "threads with the spectrum partitioned on its own.",
+    "C07": " Further stages: winds / depth given on fewer dimensions than the chunked spectra (ptm1, ptm2, ptm4, hp01), and many blocks of one "
+           "dataset on 16 threads for ptm1 / ptm3 against the in-memory result.",
+    "C18": " Mechanisms.tla also models the VALUES of the process-wide attribute table (ATTRTAB copy / live; the live variant is a regression "
+           "configuration that must violate Fresh); histories include reader calls on every sample format and HP01 calls, observations include "
+           "the metadata (name, attrs, coordinate attrs) of twelve stamped results and HP01 on two same-shaped arrays with different frequency grids.",
+    "C12": " MC_Convert also enumerates the native dataset narrowed by a selection to one or two direction bins (keep) and degree axes with small labels.",
+    "C09": " Box sets include one-row boxes (dmin = dmax) inside, apart from and next to other boxes, and the row at north (limit 0).",
+}
+
 NOT_YET = "check not yet built in this round (see DESIGN.md §4 for the planned TLA+ model); not claimed"
 
 
@@ -283,7 +301,7 @@ def main():
             "evidence_file": "/verif/evidence/%s.json" % pid,
             "replay_cmd_template": "./check %s --replay {path}" % pid,
             "engine": c.get("engine", "tlc"),
-            "level_claimed": {"category": "model_checking", "text": c["text"], "design_ref": c["ref"]},
+            "level_claimed": {"category": "model_checking", "text": c["text"] + EXTRA.get(pid, ""), "design_ref": c["ref"]},
             "level_note": c["note"],
             "technique": c["technique"],
         })
